@@ -264,10 +264,23 @@ def shape_name(shape):
     return f"{n(state)}_{n(mode)}_{n(fan)}_{n(swing)}_{'update' if update else 'ir'}_{'sep' if sep else 'std'}"
 
 
-def breeze_units(prop, what, nchunks=32):
-    """what: 'C16' full contract; 'C01' frame_ok of every write; 'C03' session/timestamp/id binding + frame conditions"""
+def success_obligations(ip, ctx, run, base):
+    """C09 on the four-step exchange: whatever step's reply is empty, the call does not report success"""
+    ob, reads = run["outcome"], run["reads"]
+    if ob[0] != "ret":
+        return [Obligation(base + "/raises_rather_than_reporting", ctx, True)]
+    succ = ip.truth(ip.getattr(ob[1], "successful", ctx), ctx)
+    anyempty = ip.disj([simp(zi(ip.builtins["len"].fn(ip, [r], {}, ctx)) == 0) for r in reads])
+    goal = z3.Not(z3.And(succ if not isinstance(succ, bool) else z3.BoolVal(succ),
+                         anyempty if not isinstance(anyempty, bool) else z3.BoolVal(anyempty)))
+    return [Obligation(base + "/no_success_after_an_empty_reply", ctx, simp(goal))]
+
+
+def breeze_units(prop, what, nchunks=32, shapes=None):
+    """what: 'C16' full contract; 'C01' frame_ok of every write; 'C03' session/timestamp/id binding + frame conditions;
+    'C09' no success after an empty reply"""
     u = {}
-    shapes = request_shapes()
+    shapes = shapes or request_shapes()
     for ch in range(nchunks):
         part = shapes[ch::nchunks]
 
@@ -281,6 +294,8 @@ def breeze_units(prop, what, nchunks=32):
             if what == "C01":
                 from .c01 import frame_obligations
                 return frame_obligations(ip, ctx, base, run["writes"])
+            if what == "C09":
+                return success_obligations(ip, ctx, run, base)
             if what == "C03":
                 from .c03 import binding_obligations
                 return binding_obligations(ip, ctx, base, run, 2)
